@@ -15,26 +15,25 @@ Definition wf_alphabet (A : alphabet) : Prop :=
 
 (* ---------- the two alphabets ---------- *)
 
-Lemma wf_alphabet_dna : wf_alphabet Dna.
+(* both follow, by computation over the tables regenerated from abc.rs (GenIoAbc.v), from:
+   every arm of from_ascii maps an upper-case letter to a discriminant below K *)
+Lemma assoc_index_wf : forall K tbl,
+  forallb (fun p : N * nat => (snd p <? K) && in_range 65 90 (fst p)) tbl = true ->
+  forall c k, assoc_index c tbl = Some k -> k < K /\ in_range 65 90 c = true.
 Proof.
-  intros c k. cbn [aindex aK Dna]. unfold dna_index.
-  repeat match goal with
-         | |- context [N.eqb c ?x] => destruct (N.eqb_spec c x) as [E|_]; [subst c|]
-         end;
-    cbv beta iota; intros H; try discriminate H; inversion H; subst k;
-    (split; [lia | reflexivity]).
+  intros K tbl. induction tbl as [|[b j] r IH]; intros H c k E; cbn [assoc_index] in E; [discriminate|].
+  cbn [forallb fst snd] in H. apply andb_true_iff in H. destruct H as [H1 H2].
+  destruct (N.eqb_spec b c) as [->|_].
+  - injection E as <-. apply andb_true_iff in H1. destruct H1 as [Hk Hc].
+    apply Nat.ltb_lt in Hk. split; assumption.
+  - exact (IH H2 c k E).
 Qed.
 
+Lemma wf_alphabet_dna : wf_alphabet Dna.
+Proof. intros c k. apply (assoc_index_wf (aK Dna) GenIoAbc.gen_dna_from_ascii). vm_compute. reflexivity. Qed.
+
 Lemma wf_alphabet_protein : wf_alphabet Protein.
-Proof.
-  intros c k. cbn [aindex aK Protein]. unfold protein_index, protein_symbols.
-  cbn [index_of].
-  repeat match goal with
-         | |- context [N.eqb ?x c] => destruct (N.eqb_spec x c) as [E|_]; [subst c|]
-         end;
-    cbv beta iota; intros H; try discriminate H; inversion H; subst k;
-    (split; [lia | reflexivity]).
-Qed.
+Proof. intros c k. apply (assoc_index_wf (aK Protein) GenIoAbc.gen_protein_from_ascii). vm_compute. reflexivity. Qed.
 
 (* ---------- generic list facts ---------- *)
 
@@ -202,11 +201,16 @@ Lemma j_build_matrix_spec : forall (value : list N -> N) (a c g t : list (list N
   j_build_matrix (map value a) (map value c) (map value g) (map value t)
   = Ok (matrix_of Dna 0%N value [(65%N, a); (67%N, c); (71%N, g); (84%N, t)]).
 Proof.
+  (* by computation over the generated tables: the column indices [map snd gen_jaspar_symbols],
+     K = gen_dna_K, and the from_ascii table behind [line_of Dna] *)
   intros value a c g t Hc Hg Ht.
-  unfold j_build_matrix, new_matrix. cbn [j_build_loop].
+  unfold j_build_matrix, new_matrix.
+  let ks := eval vm_compute in (map snd GenIoAbc.gen_jaspar_symbols) in
+    change (map snd GenIoAbc.gen_jaspar_symbols) with ks.
+  let K := eval vm_compute in (aK Dna) in change (aK Dna) with K.
+  cbn [combine j_build_loop].
   rewrite !set_col_length, !repeat_length, !map_length, Hc, Hg, Ht, !Nat.eqb_refl.
-  change (0 <? 5) with true. change (1 <? 5) with true.
-  change (3 <? 5) with true. change (2 <? 5) with true. cbv iota.
+  cbn [Nat.ltb Nat.leb].
   f_equal.
   apply (nth_ext _ _ [] []).
   - rewrite !set_col_length, repeat_length, matrix_of_rows. reflexivity.
@@ -215,12 +219,11 @@ Proof.
       by (rewrite ?set_col_length, ?repeat_length, ?map_length; lia).
     rewrite nth_repeat_lt by auto.
     rewrite matrix_of_nth by exact Hi.
-    cbn [aK Dna seq map repeat upd]. unfold cell_of.
-    change (line_of Dna 0 [(65%N, a); (67%N, c); (71%N, g); (84%N, t)]) with (Some a).
-    change (line_of Dna 1 [(65%N, a); (67%N, c); (71%N, g); (84%N, t)]) with (Some c).
-    change (line_of Dna 2 [(65%N, a); (67%N, c); (71%N, g); (84%N, t)]) with (Some t).
-    change (line_of Dna 3 [(65%N, a); (67%N, c); (71%N, g); (84%N, t)]) with (Some g).
-    change (line_of Dna 4 [(65%N, a); (67%N, c); (71%N, g); (84%N, t)])
-      with (@None (list (list N))).
+    cbn [aK Dna GenIoAbc.gen_dna_K seq map repeat upd]. unfold cell_of.
+    repeat match goal with
+           | |- context [line_of Dna ?k ?cols] =>
+               let r := eval vm_compute in (line_of Dna k cols) in
+               change (line_of Dna k cols) with r
+           end.
     cbv iota. rewrite !nth_map_nth_error. reflexivity.
 Qed.
